@@ -15,7 +15,7 @@ C03.map        the manager maps each library exception to the same-named excepti
 """
 import ast
 
-from ..absint import (Interp, Obj, Node, _Raise, C_NONE, show, flat_effects, enumerate_cells, Budget, deps_of, OTHER)
+from ..absint import (Interp, Obj, Node, _Raise, C_NONE, show, flat_effects, enumerate_cells, Budget, NeedAtom, DomainGrew, deps_of, OTHER)
 from ..cfg import CFG, fmt_path, walk_no_nested
 from ..consts import Evaluator, alts
 from ..deps import node_exprs
@@ -760,6 +760,108 @@ def rule_map(ctx):
                   "padding and unpadding must be inverse: " + ("; ".join(bad[:2]) if bad else "random range %s" % sorted(ranges)), "inverse padding scheme (255 lengths)")
 
 
+def media_label_scenarios(repo):
+    """three send-side histories on AxolotlSendLayer with a media message (`mediatype="image"` on its proto child): to a
+    contact, to a group whose members all have sessions, and a group member's retry receipt for the queued message.
+    -> {scenario: (ok, text)} or None when an execution cannot be followed.  In the envelope that goes down, every enc
+    child whose ciphertext was computed from the message's payload must carry the message's media type - the receiving
+    side routes by that label (without it a picture is taken for a text message and never shown)."""
+    from ..absint import Obj, deps_of
+    from ..repo import ClassInfo
+    GOOD, OWN, GROUP = "111@s.whatsapp.net", "999@s.whatsapp.net", "123-456@g.us"
+    PAYLOAD = ("ext", "PAYLOAD", [])
+
+    def message(to):
+        n = Node(("c", "message"), None)
+        n.attrs.update({"id": ("c", "MSG-1"), "to": ("c", to), "type": ("c", "media")})
+        p = Node(("c", "proto"), None)
+        p.attrs.update({"mediatype": ("c", "image")})
+        p.data = PAYLOAD
+        n.children.append(("one", p))
+        return n
+
+    def mentions_payload(v, seen=None):
+        seen = seen if seen is not None else set()
+        if id(v) in seen:
+            return False
+        seen.add(id(v))
+        if v is PAYLOAD or (isinstance(v, tuple) and len(v) == 3 and v[0] == "ext" and v[1] == "PAYLOAD"):
+            return True
+        if isinstance(v, tuple):
+            return any(mentions_payload(x, seen) for x in v if isinstance(x, (tuple, list)))
+        if isinstance(v, list):
+            return any(mentions_payload(x, seen) for x in v)
+        return False
+
+    def run(cell, domains, scenario):
+        hooks = {"method:getKeysFor": lambda itp, recv, a, k, env, d, e: (itp.apply(a[1], [a[0], ("dict", {})], {}, env, d, e), C_NONE)[1],
+                 "ext:manager.session_exists": lambda *a: ("c", True), "ext:*.isEmpty": lambda *a: ("c", False), "anymethod:isEmpty": lambda *a: ("c", False),
+                 "ext:*.getUsername": lambda *a: ("c", OWN)}
+        it, layer, cls = mk_layer(repo, SEND, "AxolotlSendLayer", cell, domains, hooks)
+        it.pure_depth = 0
+        env = {"@module": cls.module, "@owner": cls}
+        raised = None
+        try:
+            if scenario == "contact":
+                it.method_call(layer, "send", [("node", message(GOOD))], {}, env, 0, None)
+            elif scenario == "group":
+                it.method_call(layer, "send", [("node", message(GROUP))], {}, env, 0, None)
+            else:
+                layer[1].fields["sentQueue"] = ("list", [("node", message(GROUP))])
+                r = Node(("c", "receipt"), None)
+                r.attrs.update({"id": ("c", "MSG-1"), "from": ("c", GROUP), "participant": ("c", GOOD), "type": ("c", "retry"), "t": ("c", "1")})
+                rn = Node(("c", "retry"), None)
+                rn.attrs.update({"count": ("c", "1"), "id": ("c", "MSG-1"), "t": ("c", "1"), "v": ("c", "1")})
+                r.children.append(("one", rn))
+                reg = Node(("c", "registration"), None)
+                reg.data = ("c", b"\x00\x00\x00\x01")
+                r.children.append(("one", reg))
+                it.method_call(layer, "receive", [("node", r)], {}, env, 0, None)
+        except _Raise as x:
+            raised = x.text
+        encs = []
+        for e in flat_effects(it.effects):
+            if e[0] == "DOWN" and e[1][0] == "node" and tagname(e[1][1]) == "message":
+                todo = [e[1][1]]
+                while todo:
+                    n = todo.pop()
+                    for kk, c in n.children:
+                        if isinstance(c, Node):
+                            if tagname(c) == "enc":
+                                encs.append(c)
+                            else:
+                                todo.append(c)
+        return {"raised": raised, "encs": [(show(c.attrs.get("type", C_NONE)), c.attrs.get("mediatype"), mentions_payload(c.data)) for c in encs]}, it
+    out = {}
+    names = {"contact": "a picture to a contact", "group": "a picture to a group (members have sessions)", "retry": "a group member asks for the picture again (retry receipt)"}
+    for scenario in ("contact", "group", "retry"):
+        try:
+            cells = enumerate_cells(lambda c, d, sc_=scenario: run(c, d, sc_), {}, max_cells=64)
+        except (NeedAtom, Budget, DomainGrew):
+            return None
+        bad, n_payload = [], 0
+        for cell, r in cells:
+            carrying = [x for x in r["encs"] if x[2]]
+            n_payload += len(carrying)
+            if not carrying:
+                bad.append("no envelope with the payload goes down%s" % (" (raises %s)" % r["raised"][:50] if r["raised"] else ""))
+            for typ, mt, _p in carrying:
+                if mt != ("c", "image"):
+                    bad.append("the %s envelope that carries the picture is labelled mediatype=%s: the receiver takes it for a text message and the picture is never shown" % (typ, show(mt) if mt is not None else None))
+        out[names[scenario]] = (not bad, "; ".join(sorted(set(bad))[:2]), n_payload)
+    return out
+
+
+def rule_media_label(ctx):
+    sc = media_label_scenarios(ctx.repo)
+    w = where(SEND, "AxolotlSendLayer", None)
+    if sc is None:
+        ctx.undecided("C03.media", w, "media label of the envelopes", "the send scenarios could not be executed")
+        return
+    for name, (ok, why, n) in sorted(sc.items()):
+        ctx.check("C03.media", ok, w, name, why, "%d envelope(s) carrying the payload, each labelled with the message's media type" % n)
+
+
 def run(ctx):
     ctx.rule("C03.taint", "only envelopes / non-message stanzas leave the send layer downward", floor=2)
     ctx.rule("C03.enq", "queue before send; bounded queue; receipts for queued messages by abstract execution (keep group messages, retry re-encrypts)", floor=7)
@@ -773,6 +875,7 @@ def run(ctx):
     ctx.rule("C03.ids", "ids unique across entity classes (C08.id adopted)", floor=3)
     ctx.rule("C03.state", "queues / parked stanzas / counters of the encryption layers are bound per instance", floor=6)
     ctx.rule("C03.map", "exception mapping and padding in the manager", floor=8)
+    ctx.rule("C03.media", "every envelope that carries a media payload is labelled with the message's media type (contact, group, retry)", floor=3)
     ctx.assume("python-axolotl's ratchets, sessions and exceptions behave as documented; conversations, restarts and group fan-out are not decided")
     ctx.guarded("C03.taint", rule_taint, ctx)
     ctx.guarded("C03.enq", rule_enq, ctx)
@@ -780,6 +883,7 @@ def run(ctx):
     ctx.guarded("C03.once", rule_once, ctx)
     ctx.guarded("C03.skdm", rule_skdm, ctx)
     ctx.guarded("C03.map", rule_map, ctx)
+    ctx.guarded("C03.media", rule_media_label, ctx)
     ctx.guarded("C03.persist", rule_persist, ctx)
     ctx.guarded("C03.state", rule_state, ctx)
     # 'delivered with the original content': the payload goes through C10's converter on both sides (C10.bij / C10.has), adopted
